@@ -225,3 +225,26 @@ package lazy
 //@   ensures result >= -2
 //@   loop 1: invariant (lowerBound - 1 <= at || at == end - 1) && at < end && cache.stride >= 0 && end <= len(haystack) && 0 <= start && start <= lowerBound && ftLen == len(ft) && -1 <= lastMatch
 //@   loop 1: invariant lowerBound == ite(minStart > start, minStart, start)
+
+// ---- give-up protocol of the forward search (C14: "returns the reference answer or explicitly declines / falls
+// back"): when determinisation fails, the result is the NFA fallback's, never a partial DFA answer ----
+//@ uninterpreted spec func fwdRef(n *nfa.NFA, h []byte, at int) int
+//@ trusted func (*DFA).nfaFallback
+//@   requires d != nil
+//@   modifies family H:nfa.PikeVM, family E:nfa.searchThread, family E:int, family E:uint32, family H:internal/sparse.SparseSet
+//@   ensures result == fwdRef(d.nfa, haystack, startPos)
+//@ trusted func (*DFA).getStartStateForUnanchored
+//@   modifies @searchState
+//@ trusted func (*DFA).tryDetectAccelerationWithCache
+//@   modifies @searchState
+//@ trusted func (*DFA).accelerate
+//@ trusted func (*DFA).checkWordBoundaryMatch
+//@ trusted func (*DFA).checkEOIMatch
+//@ func (*DFA).searchAt
+//@   props C14
+//@   opt safety=off
+//@   requires d != nil && cache != nil
+//@   modifies @searchState
+//@   ghost gaveUp = false
+//@   after call determinize: ghost gaveUp = lastcall1 != nil
+//@   ensures gaveUp ==> result == fwdRef(d.nfa, haystack, startPos)
